@@ -6,9 +6,11 @@ import (
 	"fmt"
 	"io"
 	"os"
+	"os/exec"
 	"os/signal"
 	"path/filepath"
 	"strings"
+	"time"
 )
 
 // The plugin simulator: the harness test binary, reached through a symlink
@@ -21,6 +23,8 @@ type PlugStep struct {
 	Raw      string `json:"raw"`      // bytes to write
 	NoReply  bool   `json:"noReply"`  // do not wait for a reply (done, eof)
 	CloseNow bool   `json:"closeNow"` // close stdout and exit right after writing Raw
+	Helper   bool   `json:"helper"`   // before this step, start a child process that outlives the plugin and keeps its stderr
+	DelayMs  int    `json:"delayMs"`  // sleep before writing Raw
 }
 
 type PlugScript struct {
@@ -74,6 +78,11 @@ func MaybeRunPlugin() {
 	if !strings.HasPrefix(base, "age-plugin-") {
 		return
 	}
+	if os.Getenv("VERIF_PLUGSIM_HELPER") != "" {
+		// a helper left behind by a plugin: lives on for a while, does nothing
+		time.Sleep(40 * time.Second)
+		os.Exit(0)
+	}
 	dir := os.Getenv(PlugEnv)
 	if dir == "" {
 		os.Exit(3)
@@ -108,6 +117,18 @@ func MaybeRunPlugin() {
 	}
 	appendEvent(dir, PlugEvent{Kind: "phase1", Data: p1.String()})
 	for _, s := range script.Steps {
+		if s.Helper {
+			if self, err := os.Executable(); err == nil {
+				h := exec.Command(self)
+				h.Env = append(os.Environ(), "VERIF_PLUGSIM_HELPER=1")
+				h.Args = []string{"age-plugin-helper"}
+				h.Stderr = os.Stderr // the inherited descriptor stays open in the helper
+				h.Start()
+			}
+		}
+		if s.DelayMs > 0 {
+			time.Sleep(time.Duration(s.DelayMs) * time.Millisecond)
+		}
 		if _, err := io.WriteString(os.Stdout, s.Raw); err != nil {
 			appendEvent(dir, PlugEvent{Kind: "end", Data: "write failed: " + err.Error()})
 			os.Exit(0)
